@@ -314,7 +314,8 @@ class C14World(World):
                        "inverse_in_training_before_init", "restart_between_init_and_next_training_forward",
                        "stale_checkpoint_restart", "uninitialised_checkpoint_restored_after_init",
                        "five_consecutive_training_forwards", "rejected_call_while_uninitialised",
-                       "layer_forward_reached_through_inverse_transform", "batchnorm_inverse_refused_in_training"]
+                       "layer_forward_reached_through_inverse_transform", "batchnorm_inverse_refused_in_training",
+                       "layer_mode_differs_from_container"]
 
     # ------------------------------------------------------------ config
     @classmethod
@@ -364,6 +365,8 @@ class C14World(World):
             out.append(dict(op, loc=0.0))
         if op.get("scale", 1.0) != 1.0:
             out.append(dict(op, scale=1.0))
+        if op.get("target") is not None:
+            o = dict(op); o.pop("target"); out.append(o)
         if op.get("op") == "restart" and op.get("source") == "old":
             out.append(dict(op, source="now"))
         return out
@@ -373,6 +376,7 @@ class C14World(World):
         super().__init__(cfg)
         self.root = build(cfg, cfg["init_seed"])
         self.mode = True           # a freshly constructed module is in training mode
+        self.lmode = []            # expected mode per monitored layer (mode switches may target a layer directly)
         self.monitored = []        # [(layer, ref)]
         self.expected = []         # per layer: state_dict bytes after the last permitted write
         self.trained = 0           # training-mode forwards that reached a monitored layer
@@ -390,6 +394,7 @@ class C14World(World):
         from nflows.transforms.normalization import ActNorm, BatchNorm
 
         self.monitored, self.expected = [], []
+        self.lmode = []
         for mod in self.root.modules():
             if type(mod) is ActNorm:
                 ref = RefActNorm(mod)
@@ -401,6 +406,7 @@ class C14World(World):
                 continue
             idx = len(self.monitored)
             self.monitored.append((mod, ref))
+            self.lmode.append(self.mode)
             self.expected.append(_sd_bytes(mod))
             self._hook(mod, ref, idx)
 
@@ -436,7 +442,7 @@ class C14World(World):
     # ------------------------------------------------------------ observation of layer calls
     def _observe(self, idx, direction, x, out):
         layer, ref = self.monitored[idx]
-        training = self.mode
+        training = self.lmode[idx]
         y, ld = out
         before = self.expected[idx]
         after = _sd_bytes(layer)
@@ -467,7 +473,7 @@ class C14World(World):
 
     def _observe_inverse_raised(self, idx, err):
         layer, ref = self.monitored[idx]
-        if ref.kind == "batchnorm" and self.mode:
+        if ref.kind == "batchnorm" and self.lmode[idx]:
             self.probes["batchnorm_inverse_refused_in_training"] += 1
             if _sd_bytes(layer) != self.expected[idx]:
                 raise Violation("state_written_when_forbidden", "refused inverse changed the state")
@@ -477,7 +483,7 @@ class C14World(World):
     # ------------------------------------------------------------ abstract state
     def abstract(self):
         inits = tuple(bool(getattr(l, "initialized", True)) for l, r in self.monitored if r.kind == "actnorm")
-        return (self.mode, inits, min(self.trained, 2), min(self.restarts, 2), self.old is not None)
+        return (self.mode, tuple(self.lmode), inits, min(self.trained, 2), min(self.restarts, 2), self.old is not None)
 
     def nontrivial(self):
         return self.trained > 0 and self.judged_after_train > 0
@@ -490,7 +496,7 @@ class C14World(World):
             w["reject"] = 0
         r = sched.random()
         last = getattr(self, "_last_kind", None)
-        if last == "forward" and self.mode and r < 0.35:
+        if last == "forward" and (self.mode or any(self.lmode)) and r < 0.35:
             kind = sched.pick(["restart", "eval", "checkpoint", "forward", "restart"])
         elif last == "restart" and r < 0.6:
             kind = sched.weighted(["forward", "eval", "inverse"], [4, 1, 1])
@@ -499,6 +505,8 @@ class C14World(World):
         else:
             kind = sched.weighted(OPKINDS, [w[k] for k in OPKINDS])
         op = {"op": kind}
+        if kind in ("train", "eval") and self.cfg["nest"] != "bare" and sched.chance(0.3):
+            op["target"] = sched.randrange(4)
         if kind in ("forward", "inverse"):
             op.update(x=data.seed30(), rows=data.pick([2, 2, 3, 4, 6, 8]), loc=data.pick([0.0, 0.0, 1.0, -3.0, 10.0]),
                       scale=data.pick([1.0, 1.0, 0.1, 5.0]))
@@ -539,14 +547,23 @@ class C14World(World):
         torch = _T()
         kind = op["op"]
         self._train_fwd_this_op = False
-        if kind == "train":
-            self.root.train()
-            self.mode = True
-            log.add("train")
-        elif kind == "eval":
-            self.root.eval()
-            self.mode = False
-            log.add("eval")
+        if kind in ("train", "eval"):
+            flag = kind == "train"
+            tgt = op.get("target", "root")
+            if tgt == "root" or not self.monitored:
+                (self.root.train if flag else self.root.eval)()
+                self.mode = flag
+                self.lmode = [flag] * len(self.monitored)
+            else:
+                # the mode switch is applied to one nested layer directly (e.g. to freeze it); a later switch on
+                # the root must still reach it
+                i = int(tgt) % len(self.monitored)
+                layer = self.monitored[i][0]
+                (layer.train if flag else layer.eval)()
+                self.lmode[i] = flag
+                if self.lmode[i] != self.mode:
+                    self.probes["layer_mode_differs_from_container"] += 1
+            log.add(kind, str(tgt))
         elif kind in ("forward", "inverse"):
             x = self.make_x(op, kind)
             self._call(kind, x, log, judged=True, seed=op["x"])
@@ -556,7 +573,7 @@ class C14World(World):
             raised = self._call(op["dir"], x, log, judged=False, seed=op["x"])
             if raised:
                 self.faults["rejected_call"] += 1
-                if uninit and self.mode:
+                if uninit and any(self.lmode):
                     self.probes["rejected_call_while_uninitialised"] += 1
         elif kind == "checkpoint":
             self._save("old")
@@ -603,9 +620,7 @@ class C14World(World):
     def _refusal_expected(self, direction):
         """A judged call may legitimately raise only when it needs the inverse of a
         BatchNorm layer while in training mode."""
-        if not self.mode:
-            return False
-        has_bn = any(r.kind == "batchnorm" for _, r in self.monitored)
+        has_bn = any(r.kind == "batchnorm" and self.lmode[i] for i, (_, r) in enumerate(self.monitored))
         if not has_bn:
             return False
         if self._is_flow():
